@@ -33,6 +33,19 @@ minibatches of the real learn() (spy on `get_experiences_samples`: every one of 
 rows idx of the recorded flattened tensor, an epoch uses every row once; provenance diffed with `gae ppobatch /
 ippobatch`) and from the `relayout-helpers` suite (the helpers driven directly with Dict / Tuple observations and index
 vectors with repeats).
+
+Dict KEY ORDER is a generator dimension everywhere a dict enters learn() (round 5): each of the eight rollout dicts of
+IPPO lists the agents in an order of its own (`korder`: "interleave" = the policy groups, which share an observation
+shape, met / interleaved differently in every dict; "free" = every dict an independent permutation, also within a
+group; and the single-dict form: only next_obs, exactly as env.step returned it, out of order, real critic, non-terminal
+last step); the per-step observation dicts of a Dict space (PPO and IPPO, `oorder`) are built with a key insertion order
+of their own per step and agent, with an observation kind `dict2` that has two members of IDENTICAL shape and dtype and
+different contents (pos = [step, env, code], vel = [-(code+1), env, step]; each member is decoded by NAME).  Oracle: the
+existing provenance oracle (all six tensors of a row and every observation member belong to one (agent, step, env); the
+GAE loop sees each agent's own rewards / values / flags; the bootstrap value of a column is its own critic at its own final
+next observation).  Loop suite: the scripted parallel env returns every dict in an agent key order drawn per call, and the
+recorded bootstrap values are held against critic(next_obs[agent]) looked up BY KEY before learn().  `probe_key_order` is the
+regression probe of the repaired defect C17-ippo-dict-key-order.
 """
 from __future__ import annotations
 
@@ -168,8 +181,8 @@ def gen_case(rng: random.Random, algo: str, T: int, E: int, ids, exact: bool, ve
             # how the agent comes by gamma / lambda (constructor, or changed after construction)
             "hp_route": rng.choice(["ctor"] * 6 + HP_ROUTES),
             # PPO: flat Box, or Dict / Tuple with a Box member and a Discrete (scalar) member
-            "okind": (rng.choice(["vector", "vector", "dict", "tuple"]) if algo == "PPO" else
-                      rng.choice(["vector"] * 8 + ["dict", "tuple", "image"])) if vec else "vector",
+            "okind": (rng.choice(["vector", "vector", "dict", "tuple", "dict2"]) if algo == "PPO" else
+                      rng.choice(["vector"] * 8 + ["dict", "tuple", "image", "dict2"])) if vec else "vector",
             "norm": bool(rng.random() < 0.5),              # normalize_images of the agent (image observations)
             "rmix": rng.choice(["none", "none", "int-first"]),
             "nvb": nvb, "rdtype": rng.choice(["f64", "f64", "f32"]), "seed": rng.randrange(1 << 30),
@@ -201,6 +214,10 @@ def restrict(case, steps, envs, ids):
     for k in ("r", "v", "d"):
         c[k] = {a: [[case[k][a][t][e] for e in envs] for t in steps] for a in ids}
     c["nd"] = {a: [case["nd"][a][e] for e in envs] for a in ids}
+    if case.get("korder"):
+        c["korder"] = {"kind": case["korder"]["kind"], "orders": [[a for a in o if a in ids] for o in case["korder"]["orders"]]}
+    if case.get("oorder"):
+        c["oorder"] = {a: [case["oorder"][a][t] for t in steps] + [case["oorder"][a][case["T"]]] for a in ids}
     return c
 
 
@@ -316,6 +333,10 @@ def multi_obs_space(okind: str):
     if okind == "image":
         return spaces.Box(0, 255, (3, 8, 8), np.uint8)
     vec, k = spaces.Box(-1.0, 1.0, (3,), np.float32), spaces.Discrete(N_CODE)
+    if okind == "dict2":
+        # two members of IDENTICAL shape and dtype with different contents: pos = [step, env, code],
+        # vel = [-(code+1), env, step]; a component stored under the other key is a different observation
+        return spaces.Dict({"pos": vec, "vel": spaces.Box(-1.0, 1.0, (3,), np.float32), "k": k})
     return spaces.Dict({"vec": vec, "k": k}) if okind == "dict" else spaces.Tuple((vec, k))
 
 
@@ -334,7 +355,84 @@ def pack_obs(okind: str, s4: np.ndarray):
         return img.reshape(*s4.shape[:-1], 3, 8, 8)
     vec = np.ascontiguousarray(s4[..., 1:4]).astype(np.float32)
     k = np.clip(s4[..., 3], 0, N_CODE - 1).astype(np.int64)
+    if okind == "dict2":
+        vel = np.stack([-(s4[..., 3] + 1), s4[..., 2], s4[..., 1]], axis=-1).astype(np.float32)
+        return {"pos": vec, "vel": vel, "k": k}
     return {"vec": vec, "k": k} if okind == "dict" else (vec, k)
+
+
+def key_ordered(case, a, t, obs):
+    """the observation dict of agent a at step t (t = T: the final next observation) with ITS key insertion order
+    (`oorder`): environments build their observation dicts as they please, e.g. reset() {pos, vel}, step() {vel, pos}"""
+    oo = case.get("oorder")
+    if not oo or not isinstance(obs, dict):
+        return obs
+    return {k: obs[k] for k in oo[a][t]}
+
+
+# ---- dict KEY ORDER as a dimension: everywhere a dict enters learn(), what it holds is addressed by key
+ROLLOUT_DICTS = ("states", "actions", "log_probs", "rewards", "dones", "values", "next_states", "next_dones")
+FINDING_KEY_ORDER = "C17-ippo-dict-key-order"
+
+
+def with_agent_key_orders(rng: random.Random, case, kind: str):
+    """each of the eight rollout dicts of an IPPO case gets its own agent key order.
+    "interleave": the policy groups are interleaved / met in a different order in every dict, the members of a group
+    keep their listing order; "free": every dict is an independent permutation of the agents (at least two dicts
+    differ in the order of the members of some group)"""
+    ids = list(case["ids"])
+    grp = groups_of(case)
+    if case["algo"] != "IPPO" or len(ids) < 2:
+        return case
+    orders = []
+    for _ in ROLLOUT_DICTS:
+        if kind == "free":
+            orders.append(rng.sample(ids, len(ids)))
+        else:
+            pools = [list(m) for _, m in grp]
+            o = []
+            while any(pools):
+                o.append(rng.choice([p for p in pools if p]).pop(0))
+            orders.append(o)
+    if all(o == ids for o in orders):                   # make sure something IS permuted: the final next observation
+        orders[6] = ids[::-1] if kind == "free" else [a for _, m in grp[::-1] for a in m]
+    case["korder"] = {"kind": kind, "orders": orders}
+    return case
+
+
+def within_group_order_differs(case) -> bool:
+    """two of the eight dicts list the members of some policy group in different orders"""
+    ko = (case.get("korder") or {}).get("orders")
+    if not ko:
+        return False
+    for _, m in groups_of(case):
+        if len({tuple(a for a in o if a in m) for o in ko}) > 1:
+            return True
+    return False
+
+
+def with_obs_key_orders(rng: random.Random, case, same_shape_only=None):
+    """Dict observations: every step's observation dict (and the final next observation) of every agent is built
+    with its own key insertion order; `same_shape_only`: only the members of identical shape and dtype change places
+    (what a positional transpose of the per-step dicts cannot notice by shape)"""
+    okind = case.get("okind", "vector")
+    if okind not in ("dict", "dict2"):
+        return case
+    keys = ["vec", "k"] if okind == "dict" else ["pos", "vel", "k"]
+    T = case["T"]
+    if same_shape_only is None:
+        same_shape_only = rng.random() < 0.5
+    if okind == "dict2" and same_shape_only:
+        oo = {a: [rng.choice([["pos", "vel", "k"], ["vel", "pos", "k"]]) for _ in range(T + 1)] for a in case["ids"]}
+    else:
+        oo = {a: [rng.sample(keys, len(keys)) for _ in range(T + 1)] for a in case["ids"]}
+    for a in case["ids"]:
+        if T >= 1 and all(o == oo[a][0] for o in oo[a][:T]) and T > 1:
+            o0 = oo[a][0]                                # reset() builds it one way, step() the other way round
+            oo[a][T - 1] = o0[::-1] if okind == "dict" else \
+                [{"pos": "vel", "vel": "pos"}.get(k, k) for k in o0]
+    case["oorder"] = oo
+    return case
 
 
 def act_dim(case, a) -> int:
@@ -379,7 +477,7 @@ def make_rollout(case, next_shift: float = 0.0):
                 s, ac, lp, v = s[0], ac[0], lp[0], v[0]
                 r = int(r[0]) if r.dtype.kind == "i" and t == 0 else (r[0] if case.get("rmix") == "int-first" else float(r[0]))
                 d = d if ippo else d[0]
-            s = pack_obs(case.get("okind", "vector"), s)
+            s = key_ordered(case, a, t, pack_obs(case.get("okind", "vector"), s))
             S[a].append(s), A[a].append(ac), L[a].append(lp), R[a].append(r), D[a].append(d), V[a].append(v)
         ns = np.array([[ai, 9 + next_shift, e, 0.5 if case.get("okind", "vector") == "vector" else 400 + ai * 4 + e]
                        for e in range(E)], dtype=np.float32)
@@ -387,8 +485,11 @@ def make_rollout(case, next_shift: float = 0.0):
         if not vec:
             ns = ns[0]
             nd = nd if ippo else nd[0]
-        NS[a], ND[a] = pack_obs(case.get("okind", "vector"), ns), nd
+        NS[a], ND[a] = key_ordered(case, a, T, pack_obs(case.get("okind", "vector"), ns)), nd
     if ippo:
+        ko = (case.get("korder") or {}).get("orders")
+        if ko:                                          # every one of the eight dicts in its OWN key order
+            return tuple({a: x[a] for a in order} for x, order in zip((S, A, L, R, D, V, NS, ND), ko))
         return (S, A, L, R, D, V, NS, ND)
     return tuple(x["_"] for x in (S, A, L, R, D, V, NS, ND))
 
@@ -684,9 +785,12 @@ def analyse_group(case, gid, members, gae, rows, boot, roll_path):
 
     t_states, t_actions, t_logp, t_vals, t_adv, t_ret = [], [], [], [], [], []
     vlook = {v[t][c]: (c // E, t, c % E) for t in range(T) for c in range(C)}
-    def member_tag(m, i):
+    def member_tag(m, i, name=""):
         """the sample an observation member of row i belongs to (every member carries the code)"""
         s = m[i]
+        if name == "vel":                                 # [-(code+1), env, step]: same shape / dtype as 'pos'
+            q = from_code(-s[0] - 1)
+            return q if q is not None and (s[2], s[1]) == (q[1], q[2]) else None
         if len(s) == 4:                                   # [agent, step, env, code]
             q = from_code(s[3])
             return q if q is not None and (s[0], s[1], s[2]) == (gl[members[q[0]]], q[1], q[2]) else None
@@ -700,7 +804,7 @@ def analyse_group(case, gid, members, gae, rows, boot, roll_path):
 
     split_obs = None
     for i in range(N):
-        tags_i = [member_tag(m, i) for _, m in st_members]
+        tags_i = [member_tag(m, i, nm) for nm, m in st_members]
         p = tags_i[0] if all(x == tags_i[0] for x in tags_i) else None
         if p is None and split_obs is None and len(tags_i) > 1:
             split_obs = (i, [(nm, x) for (nm, _), x in zip(st_members, tags_i)])
@@ -754,7 +858,9 @@ def analyse_group(case, gid, members, gae, rows, boot, roll_path):
         problems.append(f"[rows] group {gid}: the members of the observation in training row {i} belong to different "
                         "samples: " + ", ".join(f"{nm!r} -> " + ("?" if x is None else f"(step {x[1]}, env {x[2]})")
                                                 for nm, x in parts)
-                        + f" (observation kind {case.get('okind')}, steps {T}, envs {E})")
+                        + f" (observation kind {case.get('okind')}, steps {T}, envs {E}"
+                        + ("; the per-step observation dicts are built in different key insertion orders: a component is "
+                           "stored under another component's key" if case.get("oorder") else "") + ")")
     if mis:
         problems.append(f"[rows] group {gid}: {first}; {mis} of {N} training rows mix samples "
                         f"(agents sharing the policy: {A}, steps {T}, envs {E})")
@@ -883,6 +989,13 @@ def case_tags(case):
          f"gl-{case['gamma']},{case['lam']}"]
     if any(m != sorted(m) for _, m in groups_of(case)):
         t.append("group-order-not-lexicographic")
+    if case.get("korder"):
+        t.append(f"agent-key-order-{case['korder']['kind']}")
+        t += [f"agent-key-order-permuted-{nm}" for nm, o in zip(ROLLOUT_DICTS, case["korder"]["orders"]) if o != case["ids"]]
+        if within_group_order_differs(case):
+            t.append("agent-key-order-differs-within-a-group")
+    if case.get("oorder"):
+        t.append("obs-key-order-per-step")
     T = case["T"]
     for a in case["ids"]:
         for e in range(case["E"]):
@@ -902,8 +1015,15 @@ def kind_of(problem: str) -> str:
 
 
 def shrink(chk, case, by_problem: bool, kind: str = ""):
+    exc = None
+    if by_problem and kind == "[raised":                  # the same failure = the same exception type
+        o0 = one_case(chk, case, random.Random(case["seed"]))
+        exc = (o0["raised"] or "").split(":")[0] or None
+
     def fails(c):
         o = one_case(chk, c, random.Random(c["seed"]))
+        if exc is not None:
+            return (o["raised"] or "").split(":")[0] == exc
         return any(kind_of(p) == kind for p in o["problems"]) if by_problem else \
             (o["diff"] is not None and not o["problems"])
     steps, envs, ids = list(range(case["T"])), list(range(case["E"])), list(case["ids"])
@@ -912,6 +1032,24 @@ def shrink(chk, case, by_problem: bool, kind: str = ""):
         envs = ddmin(envs, lambda x: fails(restrict(case, steps, x, ids)))
         steps = ddmin(steps, lambda x: fails(restrict(case, x, envs, ids)))
     return restrict(case, steps, envs, ids)
+
+
+def probe_key_order(chk: Check) -> None:
+    """regression probe for the repaired defect C17-ippo-dict-key-order, on exactly the analysed input: two agents
+    sharing one policy, the final next observation dict alone lists them the other way round (as env.step returned
+    it), non-terminal last step, real critic.  IPPO.assemble_shared_inputs used to fill each group in the key order
+    of EACH input dict, so agent_0's estimates were bootstrapped from agent_1's final next observation."""
+    c = gen_case(random.Random(17), "IPPO", 3, 2, ["agent_0", "agent_1"], exact=False)
+    c.update(okind="vector", hp_route="ctor", akind="discrete", rmix="none", seed=1717)
+    for a in c["ids"]:
+        c["nd"][a] = [0, 0]
+    c["korder"] = {"kind": "free", "orders": [["agent_0", "agent_1"]] * 6 + [["agent_1", "agent_0"], ["agent_0", "agent_1"]]}
+    o = one_case(chk, c)
+    chk.case(["probe-key-order", c["korder"]], nontrivial=True, tags=["probe-ippo-dict-key-order"] + case_tags(c))
+    chk.suite("probe-ippo-dict-key-order", 1, int(o["diff"] is not None))
+    if o["problems"] or o["diff"] is not None:
+        chk.finding(FINDING_KEY_ORDER, (o["problems"] or ["implementation and model disagree on the rows / estimates"])[0],
+                    {"case": c, "oracle_problems": o["problems"], "diff_at": o["diff"], "impl": o["impl"], "model": o["model"]})
 
 
 def report(chk: Check, case, out):
@@ -1109,10 +1247,15 @@ class ScriptParallelEnv:
 
     metadata = {"name": "c17_script_parallel"}
 
-    def __init__(self, ids, schedules, vectorised: bool, akind: str = "discrete"):
+    def __init__(self, ids, schedules, vectorised: bool, akind: str = "discrete", key_order=None, seed: int = 0):
         from gymnasium import spaces
         self.possible_agents = list(ids)
         self.agents = list(ids)
+        # key_order: every dict the env returns (observations, rewards, terminations, truncations, infos) lists the
+        # agents in an order of its own, drawn per call: "interleave" = the policy groups interleaved differently,
+        # members of a group in listing order; "free" = any permutation
+        self.key_order = key_order
+        self._krng = random.Random(seed ^ 0xC17)
         self.scripts = [_Script(s, len(ids)) for s in schedules]
         self.vectorised = bool(vectorised)
         self.akind = akind
@@ -1131,19 +1274,34 @@ class ScriptParallelEnv:
     def action_space(self, agent):
         return _loop_act_space(self.akind, agent.startswith("other"))
 
+    def _ordered(self, d: dict) -> dict:
+        if not self.key_order:
+            return d
+        ids = list(d)
+        if self.key_order == "free":
+            order = self._krng.sample(ids, len(ids))
+        else:
+            pools: dict[str, list] = {}
+            for a in ids:
+                pools.setdefault(a.rsplit("_", 1)[0], []).append(a)
+            pools_, order = list(pools.values()), []
+            while any(pools_):
+                order.append(self._krng.choice([p for p in pools_ if p]).pop(0))
+        return {a: d[a] for a in order}
+
     def _obs(self):
         self._last = {}
         for ai, a in enumerate(self.possible_agents):
             self._last[a] = np.array([[e + 4 * ai, s.ep % 50, s.k, self.g % 50] for e, s in enumerate(self.scripts)],
                                      dtype=np.float32) / 8
-        return {a: (o.copy() if self.vectorised else o[0].copy()) for a, o in self._last.items()}
+        return self._ordered({a: (o.copy() if self.vectorised else o[0].copy()) for a, o in self._last.items()})
 
     def reset(self, seed=None, options=None):
         for s in self.scripts:
             s.begin()
         self._over = False
         self.agents = list(self.possible_agents)
-        return self._obs(), {a: {} for a in self.possible_agents}
+        return self._obs(), self._ordered({a: {} for a in self.possible_agents})
 
     def step(self, actions):
         if self._over:                   # a plain env stepped again without reset: count it, carry on
@@ -1174,14 +1332,14 @@ class ScriptParallelEnv:
             r_ = {a: float(v[0]) for a, v in rew.items()}
             te = {a: bool(term[a][0]) for a in ids}
             tr = {a: bool(trunc[a][0]) for a in ids}
-        return self._obs(), r_, te, tr, {a: {} for a in ids}
+        return self._obs(), self._ordered(r_), self._ordered(te), self._ordered(tr), self._ordered({a: {} for a in ids})
 
     def close(self):
         pass
 
 
 def gen_loop_case(rng: random.Random, algo: str, vec: bool, T: int, E: int, R: int, ids=None,
-                  akind: str = "discrete", stagger: bool = False):
+                  akind: str = "discrete", stagger: bool = False, key_order=None):
     """schedules are built so that episodes end by termination, by truncation only and by both, strictly inside
     rollouts and exactly on their last step; with `stagger` the agents of a sub-environment are done at
     different steps"""
@@ -1210,6 +1368,7 @@ def gen_loop_case(rng: random.Random, algo: str, vec: bool, T: int, E: int, R: i
     return {"suite": "loop", "algo": algo, "vec": bool(vec), "T": T, "E": E, "R": R,
             "ids": list(ids) if algo == "IPPO" else ["_"], "schedules": sched, "gamma": g, "lam": l,
             "akind": akind, "stagger": bool(stagger and n_agents > 1),
+            "key_order": key_order if algo == "IPPO" and n_agents > 1 else None,
             "share": bool(rng.random() < 0.5), "seed": rng.randrange(1 << 30)}
 
 
@@ -1293,11 +1452,24 @@ def _reevaluate(lc, agent, experiences, env, start, T):
     rollout, of the STORED action at the STORED observation; (c) stored observations are the ones the
     environment emitted for that agent/env/step and the stored values are the critic's values of them.
     Returns (problems, stats)."""
-    problems, stats = [], {"clipped": 0, "samples": 0}
+    problems, stats = [], {"clipped": 0, "samples": 0, "boot": {}}
     ppo = lc["algo"] == "PPO"
     E = lc["E"]
     S, A_, L_, _, _, V_ = experiences[:6]
     grp = _loop_groups(lc)
+    # the value every (agent, env) column has to bootstrap from: its OWN critic at its OWN final next observation,
+    # looked up BY KEY in the dict the loop hands over
+    with torch.no_grad():
+        if ppo:
+            stats["boot"]["_"] = agent.critic(agent.preprocess_observation(experiences[6])).reshape(-1).tolist()
+        else:
+            from agilerl.utils.algo_utils import preprocess_observation as _pre
+            for gi, (gid, members) in enumerate(grp):
+                agent.critics[gi].eval()
+                for a in members:
+                    o = _pre(np.asarray(experiences[6][a], dtype=np.float32).reshape(E, -1), agent.observation_space[a],
+                             agent.device, agent.normalize_images)
+                    stats["boot"][a] = agent.critics[gi](o).reshape(-1).tolist()
 
     def first(kind, text):
         if not any(p.startswith(kind) for p in problems):
@@ -1386,7 +1558,7 @@ def run_loop_case(chk: Check, lc):
         env = ScriptVecEnv(lc["schedules"], akind)
     else:
         from agilerl.training.train_multi_agent_on_policy import train_multi_agent_on_policy as train
-        env = ScriptParallelEnv(ids, lc["schedules"], lc["vec"], akind)
+        env = ScriptParallelEnv(ids, lc["schedules"], lc["vec"], akind, lc.get("key_order"), lc["seed"])
     agent = _build_loop_agent(lc, env)
     if akind == "box-squash":
         # the loops hand the numpy action of get_action to actor.scale_action; a tree in which that raises
@@ -1402,7 +1574,8 @@ def run_loop_case(chk: Check, lc):
     pre = "ppo" if lc["algo"] == "PPO" else "ippo"
 
     def spy(experiences):
-        call = {"end": len(env.log), "twin": None, "claims": [], "pre": [], "stats": {}}
+        call = {"end": len(env.log), "twin": None, "claims": [], "pre": [], "stats": {},
+                "next_keys": list(experiences[6]) if isinstance(experiences[6], dict) else None}
         calls.append(call)
         n_steps = len(experiences[3]) if lc["algo"] == "PPO" else len(next(iter(experiences[3].values())))
         start = call["end"] - n_steps
@@ -1515,6 +1688,13 @@ def run_loop_case(chk: Check, lc):
                              f"the environment did not report the agent done at step {t - 1} but dones[{t}] = "
                              f"{int(D_[t][c])}"))
                         break
+                want_nv = (call["stats"].get("boot") or {}).get(a)
+                if want_nv is not None and len(want_nv) == E and abs(NV_[c] - want_nv[e]) > 1e-5 * max(1.0, abs(want_nv[e])) \
+                        and not any(p.startswith("[bootstrap]") for p in out["problems"]):
+                    out["problems"].append(f"[bootstrap] {where}: the estimates of agent {a} env {e} are bootstrapped from "
+                                           f"{NV_[c]}, the critic's value of ITS final next observation (next_obs[{a!r}] as "
+                                           f"env.step returned it, agent key order of that dict: "
+                                           f"{list(call.get('next_keys') or [])}) is {want_nv[e]}")
                 ndt[c] = flags[T - 1]
                 if int(ND_[c]) != ndt[c]:
                     out["problems"].append(f"[loop-flags] {where}: agent {a} env {e}: next_done = {int(ND_[c])} but the "
@@ -1568,6 +1748,8 @@ def run_loop_case(chk: Check, lc):
         out["problems"].append(f"[loop-flags] the plain environment was stepped {env.stepped_after_end} time(s) after an "
                                "episode had ended without being reset")
     out["tags"].append(f"loop-act-{akind}")
+    if lc.get("key_order"):
+        out["tags"].append(f"loop-env-agent-key-order-{lc['key_order']}")
     if akind != "discrete":
         out["tags"].append("loop-clipping-active" if clipped else "loop-clipping-inactive")
         out["clipped"] = f"{clipped}/{samples}"
@@ -1591,13 +1773,18 @@ def loop_cases(rng: random.Random, tier: str):
              G(rng, "IPPO", True, 5, 2, 2, ID_SETS[4], akind="discrete", stagger=True),
              G(rng, "IPPO", False, 6, 1, 3, ID_SETS[1], akind="discrete", stagger=True),
              G(rng, "IPPO", False, 5, 1, 3, ID_SETS[5], akind="box-clip", stagger=False),
-             G(rng, "IPPO", False, 6, 1, 2, ID_SETS[2], akind="box-clip", stagger=True)]
+             G(rng, "IPPO", False, 6, 1, 2, ID_SETS[2], akind="box-clip", stagger=True),
+             # the env returns every dict in an agent key order of its own (groups interleaved / any permutation)
+             G(rng, "IPPO", True, 4, 2, 2, ID_SETS[3], akind="discrete", key_order="interleave"),
+             G(rng, "IPPO", True, 3, 2, 2, ID_SETS[4], akind="box-clip", stagger=True, key_order="free"),
+             G(rng, "IPPO", False, 5, 1, 2, ID_SETS[5], akind="discrete", key_order="interleave")]
     for _ in range(4 if tier == "quick" else 60):
         algo = rng.choice(["PPO", "IPPO", "IPPO"])
         vec = True if algo == "PPO" else rng.random() < 0.5
         akind = rng.choice(["discrete", "box-clip", "box-squash"] if algo == "PPO" else ["discrete", "box-clip"])
         cases.append(G(rng, algo, vec, rng.randint(3, 6), rng.randint(1, 3) if vec else 1, rng.randint(2, 3),
-                       rng.choice(ID_SETS[:6] + UNSORTED_ID_SETS[:2]), akind=akind, stagger=rng.random() < 0.7))
+                       rng.choice(ID_SETS[:6] + UNSORTED_ID_SETS[:2]), akind=akind, stagger=rng.random() < 0.7,
+                       key_order=rng.choice([None, None, "interleave", "free"])))
     return cases
 
 
@@ -1677,8 +1864,14 @@ def gen_relayout_case(rng: random.Random):
         idx = [rng.randrange(N) for _ in range(rng.randint(1, 2 * N))]   # repeats, any length
     else:
         idx = rng.sample(range(N), rng.randint(1, N))                  # a minibatch
-    return {"suite": "relayout", "T": T, "E": E, "okind": rng.choice(["box", "dict", "tuple"]),
-            "akind": rng.choice(["box", "disc"]), "idx": idx, "seed": rng.randrange(2 ** 31)}
+    c = {"suite": "relayout", "T": T, "E": E, "okind": rng.choice(["box", "dict", "tuple", "dict2", "dict2"]),
+         "akind": rng.choice(["box", "disc"]), "idx": idx, "seed": rng.randrange(2 ** 31)}
+    if c["okind"] in ("dict", "dict2") and rng.random() < 0.7:
+        # every step's observation dict in a key insertion order of its own ("dict2": members a, c of identical shape / dtype)
+        keys = ["a", "b"] if c["okind"] == "dict" else ["a", "c", "b"]
+        c["oorder"] = [rng.sample(keys, len(keys)) if rng.random() < 0.5 or c["okind"] == "dict" else
+                       rng.choice([["a", "c", "b"], ["c", "a", "b"]]) for _ in range(T)]
+    return c
 
 
 def run_relayout_case(chk: Check, c):
@@ -1693,7 +1886,11 @@ def run_relayout_case(chk: Check, c):
     for t in range(T):
         box = np.array([[cd(t, e) * 4 + f for f in range(3)] for e in range(E)], dtype=np.float32)
         disc = np.array([cd(t, e) for e in range(E)], dtype=np.int64)
-        S.append(box if c["okind"] == "box" else {"a": box, "b": disc} if c["okind"] == "dict" else (box, disc))
+        ob = box if c["okind"] == "box" else {"a": box, "b": disc} if c["okind"] == "dict" else \
+            {"a": box, "c": -box, "b": disc} if c["okind"] == "dict2" else (box, disc)
+        if c.get("oorder") and isinstance(ob, dict):
+            ob = {k: ob[k] for k in c["oorder"][t]}
+        S.append(ob)
         A.append(np.array([[cd(t, e) * 4 + f for f in range(2)] for e in range(E)], dtype=np.float32)
                  if c["akind"] == "box" else disc.copy())
         L.append(np.array([cd(t, e) for e in range(E)], dtype=np.float32))
@@ -1716,6 +1913,8 @@ def run_relayout_case(chk: Check, c):
             tags_ = []
             for j in range(len(idx)):
                 row = m[j].tolist()
+                if name == "states" and mk == "c":         # member 'c' = -(member 'a'): same shape / dtype, other contents
+                    row = [-v for v in row] if all(v < 0 for v in row) else [0.5]
                 if len(row) > 1:                            # a feature vector: code*4 + f in place f
                     q = row[0] / 4
                     ok = all(v == row[0] + f for f, v in enumerate(row))
@@ -1751,7 +1950,8 @@ def run_relayout_suite(chk: Check, rng: random.Random, corpus=()):
     reported = False
     for c in cases:
         o = run_relayout_case(chk, c)
-        chk.case(c, nontrivial=c["T"] > 1 and c["E"] > 1, tags=["relayout", f"relayout-obs-{c['okind']}",
+        chk.case(c, nontrivial=c["T"] > 1 and c["E"] > 1, tags=["relayout", f"relayout-obs-{c['okind']}"] +
+                 ["relayout-obs-key-order-per-step"] * bool(c.get("oorder")) + [
                  "relayout-idx-" + ("perm" if sorted(c["idx"]) == list(range(c["T"] * c["E"])) else
                                     "repeats" if len(set(c["idx"])) < len(c["idx"]) else "subset")])
         if not o["problems"] and o["diff"] is None:
@@ -1818,6 +2018,36 @@ def structured_cases(rng: random.Random, tier: str):
             if c["gamma"] in ("0", "1") or c["lam"] in ("0", "1"):
                 c["gamma"], c["lam"] = "1/2", "3/4"
             cases.append(c)
+    # … dict KEY ORDER: each of the eight rollout dicts of IPPO in its own agent order (policy groups with equal
+    #    observation shapes interleaved differently per dict; real critic and a non-terminal last step so that the
+    #    bootstrap value tells the agents apart), and every dict independently permuted
+    for ids, T, E, exact, kind in [(ID_SETS[3], 3, 2, False, "interleave"), (ID_SETS[4], 2, 2, False, "interleave"),
+                                   (UNSORTED_ID_SETS[3], 2, 1, False, "interleave"), (ID_SETS[5], 3, 2, True, "interleave"),
+                                   (ID_SETS[6], 2, 2, True, "interleave"), (ID_SETS[1], 3, 2, False, "free"),
+                                   (ID_SETS[4], 2, 2, True, "free"), (UNSORTED_ID_SETS[1], 2, 1, False, "free")]:
+        c = gen_case(rng, "IPPO", T, E, ids, exact=exact)
+        c["okind"] = "vector"
+        if not exact:
+            for a in c["ids"]:
+                c["nd"][a] = [0] * E
+        cases.append(with_agent_key_orders(rng, c, kind))
+    for i, (ids, kind) in enumerate([(ID_SETS[3], "interleave"), (ID_SETS[4], "interleave"), (ID_SETS[1], "free")]):
+        c = gen_case(rng, "IPPO", 3, 2, ids, exact=False)           # ONLY the final next observation, as env.step
+        c["okind"] = "vector"                                      # returned it, lists the agents in another order
+        for a in c["ids"]:
+            c["nd"][a] = [0, 0]
+        grp = groups_of(c)
+        order = [a for _, m in grp[::-1] for a in (m if kind == "interleave" else m[::-1])]
+        c["korder"] = {"kind": kind, "orders": [list(c["ids"])] * 6 + [order, list(c["ids"])]}
+        cases.append(c)
+    # … Dict observations with two members of identical shape and dtype whose per-step dicts are built in different key
+    #    insertion orders (PPO and IPPO)
+    for algo, ids, T, E, okind, exact in [("PPO", None, 3, 2, "dict2", True), ("PPO", None, 4, 1, "dict2", False),
+                                          ("PPO", None, 2, 3, "dict", True), ("IPPO", ID_SETS[1], 3, 2, "dict2", True),
+                                          ("IPPO", ID_SETS[4], 2, 2, "dict2", False), ("IPPO", ID_SETS[3], 3, 1, "dict", True)]:
+        c = gen_case(rng, algo, T, E, ids, exact=exact)
+        c["okind"] = okind
+        cases.append(with_obs_key_orders(rng, c, same_shape_only=exact))
     n_rand = 200 if tier == "quick" else 2000
     for _ in range(n_rand):
         algo = "IPPO" if rng.random() < 0.6 else "PPO"
@@ -1828,7 +2058,12 @@ def structured_cases(rng: random.Random, tier: str):
         if algo == "IPPO" and len(ids) > 4:                 # many agents: keep the case cheap
             T, E = min(T, 3), min(E, 2)
         vec = not (E == 1 and rng.random() < 0.3)
-        cases.append(gen_case(rng, algo, T, E, ids, exact=rng.random() < 0.8, vec=vec))
+        c = gen_case(rng, algo, T, E, ids, exact=rng.random() < 0.8, vec=vec)
+        if algo == "IPPO" and len(c["ids"]) > 1 and rng.random() < 0.3:
+            with_agent_key_orders(rng, c, "interleave" if len(groups_of(c)) > 1 and rng.random() < 0.7 else "free")
+        if rng.random() < 0.6:
+            with_obs_key_orders(rng, c)
+        cases.append(c)
     return cases
 
 
@@ -1855,7 +2090,12 @@ def run(chk: Check) -> None:
                 "the STORED action/observation and the stored observations are held against what the environment emitted; every "
                 "learn() call's recorded rewards, dones, next_done are held against the environment's own episode log, "
                 "the recursion is recomputed over the true boundaries, and an identical twin agent learns from the same "
-                "rollout with everything after the true boundaries replaced (no-leak)")
+                "rollout with everything after the true boundaries replaced (no-leak); dict KEY ORDER: each of the eight "
+                "IPPO rollout dicts in an agent order of its own (policy groups interleaved differently per dict; every dict "
+                "independently permuted; next_obs alone out of order), per-step observation dicts of Dict spaces built in "
+                "different key insertion orders incl. two members of identical shape/dtype (PPO, IPPO), scripted parallel envs "
+                "returning every dict in a key order drawn per call, with the bootstrap value of every column held against its "
+                "own critic at next_obs[agent] looked up by key")
     chk.assumptions = [
         "the recorder copies what learn() holds at the call sites (advantages/returns right after the loop, the six "
         "flattened tensors right before the minibatch loop); the harness checks the recorded inputs against the "
@@ -1912,6 +2152,7 @@ def run(chk: Check) -> None:
     run_loop_suite(chk, rng, seen_kinds, corpus_loop)
     run_relayout_suite(chk, random.Random(rng.randrange(2 ** 31)), corpus_relayout)
     probe_bootstrap(chk, rng, 2 if chk.tier == "quick" else 5)
+    probe_key_order(chk)
     if chk.tier == "thorough":
         selftest(chk)
 
@@ -2220,6 +2461,71 @@ def selftest(chk: Check) -> None:
         chk.notes.append(f"self-test: '{what}' detected by the loop suite")
     if not n_loop:
         raise InfraError("C17 self-test: no training-loop fault could be seeded (source of the loops not recognised)")
+
+    # round-5 faults: dict KEY ORDER.  (a) the policy groups come out in the order their agents first appear in each
+    # input dict; (b) the members of a group keep the order of each input dict (the repaired C17-ippo-dict-key-order);
+    # (c) per-step observation dicts transposed by position under the keys of the first step
+    def first_seen(self, input):
+        shared: dict = {}
+        for agent_id, inp in input.items():
+            shared.setdefault(self.get_homo_id(agent_id), {})[agent_id] = ippo_mod.stack_experiences(inp, to_torch=False)[0]
+        return shared
+
+    def members_in_input_order(self, input):
+        shared = {h: {} for h in self.shared_agent_ids}
+        for agent_id, inp in input.items():
+            shared[self.get_homo_id(agent_id)][agent_id] = ippo_mod.stack_experiences(inp, to_torch=False)[0]
+        return shared
+
+    def only_next_obs(ids, order):
+        c = _probe("IPPO", ids, okind="vector")
+        for a in c["ids"]:
+            c["nd"][a] = [0, 0]
+        c["korder"] = {"kind": "free", "orders": [list(ids)] * 6 + [list(order), list(ids)]}
+        return c
+    k_probes = {
+        "first_seen": [only_next_obs(ID_SETS[3], ID_SETS[3][::-1]),
+                       with_agent_key_orders(rng, _probe("IPPO", ID_SETS[4], exact=True, okind="vector", akind="box"), "interleave")],
+        "members_in_input_order": [only_next_obs(ID_SETS[1], ID_SETS[1][::-1]),
+                                   with_agent_key_orders(rng, _probe("IPPO", ID_SETS[2], exact=True, okind="vector"), "free")],
+    }
+    k_loops = {"first_seen": gen_loop_case(lrng, "IPPO", True, 4, 2, 2, ID_SETS[3], key_order="interleave"),
+               "members_in_input_order": gen_loop_case(lrng, "IPPO", False, 5, 1, 2, ID_SETS[1], key_order="free")}
+    orig_asm = ippo_mod.IPPO.assemble_shared_inputs
+    for fault, what in ((first_seen, "policy groups in the order their agents first appear in each rollout dict"),
+                        (members_in_input_order, "members of a policy group in the key order of each rollout dict")):
+        ippo_mod.IPPO.assemble_shared_inputs = fault
+        try:
+            hits = [bool(o["problems"]) or o["diff"] is not None
+                    for o in (one_case(chk, c, random.Random(5)) for c in k_probes[fault.__name__])]
+            ol = run_loop_case(chk, k_loops[fault.__name__])
+            hits.append(bool(ol["problems"]) or ol["diff"] is not None)
+        finally:
+            ippo_mod.IPPO.assemble_shared_inputs = orig_asm
+        if not all(hits):
+            raise InfraError(f"C17 self-test: IPPO {what} was not noticed ({hits}: next_obs alone out of order, all eight "
+                             "dicts in their own order, training loop on an env returning dicts in its own key order)")
+        chk.notes.append(f"self-test: IPPO {what} detected (direct rollouts and the loop suite)")
+
+    def positional_stack(*exps, **kw):
+        fixed = []
+        for x in exps:
+            if isinstance(x, list) and x and isinstance(x[0], dict):
+                x = [dict(zip(x[0].keys(), it.values())) for it in x]
+            fixed.append(x)
+        return orig_stack_p(*fixed, **kw)
+    d_probes = []
+    for algo, ids in (("PPO", None), ("IPPO", ID_SETS[1])):
+        d_probes.append(with_obs_key_orders(rng, _probe(algo, ids, exact=True, okind="dict2"), same_shape_only=True))
+    ppo_mod.stack_experiences = ippo_mod.stack_experiences = positional_stack
+    try:
+        outs = [one_case(chk, c, random.Random(5)) for c in d_probes]
+    finally:
+        ppo_mod.stack_experiences, ippo_mod.stack_experiences = orig_stack_p, orig_stack_i
+    if not all(any(p.startswith("[rows]") for p in o["problems"]) for o in outs):
+        raise InfraError("C17 self-test: per-step observation dicts transposed by position (components of equal shape under "
+                         f"the wrong keys) were not noticed as mixed rows ({[o['problems'][:1] for o in outs]})")
+    chk.notes.append("self-test: Dict observations stacked by position under the first step's keys detected (PPO, IPPO)")
 
     # D18: the critic's copy of the shared encoder is not brought up to date after learning
     orig_share = ppo_mod.PPO.share_encoder_parameters
